@@ -26,7 +26,8 @@ REPO = os.environ.get('PI2_REPO', '/repo')
 COQ = os.path.join(VERIF, 'coq')
 OCAML = os.path.join(VERIF, 'ocaml')
 OUT = os.path.join(VERIF, 'out')
-EVID = os.path.join(VERIF, 'evidence')
+# runs against a scratch tree (PI2_REPO set) must not overwrite the evidence of /repo itself: they write to evidence_scratch/ (git-ignored)
+EVID = os.path.join(VERIF, 'evidence' if 'PI2_REPO' not in os.environ else 'evidence_scratch')
 PY = '/venv/bin/python'
 PYSRC = os.path.join(REPO, 'generation', 'src')
 SHIMS = os.path.join(VERIF, 'harness', 'shims')
